@@ -2820,8 +2820,10 @@ class WorkflowGraph(object):
             ref_condition, (cond_stage, cond_name)
         ))
 
+        # VV: several loops may have a condition component with the same name, tell them apart by their stage
+        cond_global_stage = (cond_stage or 0) + import_in_stage
         condition_instances = sorted(
-            [c for c in all_looped_ids if c[1].split('#', 1)[1] == cond_name],
+            [c for c in all_looped_ids if int(c[0]) == cond_global_stage and c[1].split('#', 1)[1] == cond_name],
             # VV: Sort on iteration number from stage<idx:%d>.<iteration-no:%d>#<name:str>
             key=lambda c: int(c[1].split('#', 1)[0]),
             reverse=True
